@@ -133,7 +133,23 @@ fn hostile_conn(r: &mut Rng, nonce: &mut u64, port: u16, span_ms: u64) -> ConnPl
     }
     let my = *nonce;
     *nonce += 1;
-    match r.below(12) {
+    match r.below(13) {
+        12 => {
+            // a websocket handshake that lacks or garbles one of its four
+            // elements (the C20 generator): malformed, so 4xx/5xx, never 101
+            let head = loop {
+                let mut n2 = my;
+                let wc = super::c20::gen_ws_conn(r, &mut n2, port, false, false);
+                let invalid = matches!(wc.reqs.first().map(|q| &q.expect), Some(Expect::Ws { valid: false, .. }));
+                if let (true, Some(Step::Send { data, .. })) = (invalid, wc.steps.first()) {
+                    break data.0.clone();
+                }
+            };
+            c.steps.push(Step::Send { data: Blob(head), completes: Some(0) });
+            c.reqs.push(hostile("invalid_ws_handshake", true, my));
+            c.steps.push(Step::AwaitResponses { count: 1, max_ms: 35_000 });
+            c.steps.push(Step::Close);
+        }
         11 => {
             // a request whose typed parameters or body cannot be decoded (one
             // malformation from the C10 catalogue): malformed, so 4xx/5xx
